@@ -32,9 +32,7 @@ for sd in sorted(glob.glob(os.path.join(wt, "ref[0-9]"))):
     t = tempfile.mkdtemp(prefix="verif-ref-")
     alarms = {}
     try:
-        for x in ("src", "Cargo.toml", "Cargo.lock"):
-            s = os.path.join("/repo", x)
-            (shutil.copytree if os.path.isdir(s) else shutil.copy)(s, os.path.join(t, x))
+        subprocess.run(["rsync", "-a", "--exclude", "target", "--exclude", ".git", "/repo/", t + "/"], check=True)
         r = subprocess.run(["patch", "-s", "-p1", "-d", t, "-i", os.path.join(out, "patch.diff")], capture_output=True, text=True)
         if r.returncode == 0:
             r = subprocess.run(["/verif/check", "all"], env=dict(os.environ, VERIF_REPO=t), capture_output=True, text=True)
